@@ -166,6 +166,11 @@ def gen(seed, family=None, knobs=None):
             kw["folders"] = folders
         if rnd.random() < 0.4:
             kw["users"] = [{"username": "jane", "password": "pw1", "is_admin": rnd.random() < 0.5}]
+        if kind == "server" and fixed is None and rnd.random() < 0.5:
+            # additional interfaces, written in non-ascending textual order
+            extra = {3: {"ip_address": f"10.{si + 1}.3.{10 + len(hosts)}", "subnet_mask": "255.255.255.0"},
+                     2: {"ip_address": f"10.{si + 1}.2.{10 + len(hosts)}", "subnet_mask": "255.255.255.0"}}
+            kw["network_interfaces"] = extra
         n.host(name, ip, gw=gw, kind=kind, **kw)
         n.to_switch(sw, name, bandwidth=bw())
         meta_hosts[name] = {"kind": kind, "ip": ip, "services": [s["type"] for s in services], "apps": [a["type"] for a in apps],
